@@ -302,27 +302,21 @@ def directionality(A, B, ts, te, max_tau=0, mrts=0):
 # automatic threshold
 # ----------------------------------------------------------------------------
 def isi_lengths_pool(trains, ts, te):
-    """pooled ISI lengths with the edge rules of the C15 statement."""
+    """pooled ISI lengths with the edge rules of the C15 statement: all
+    inter-spike intervals; the interval before the first / after the last spike is
+    the larger of the edge distance and the neighbouring interval (just the edge
+    distance for a one-spike train); no interval where a spike sits on the edge;
+    an empty train contributes the recording length."""
     pool = []
     for sp in trains:
         n = len(sp)
         if n == 0:
             pool.append(te - ts)
             continue
-        # interior ISIs
-        first_on_edge = not (sp[0] > ts)
-        last_on_edge = not (sp[-1] < te)
         inner = [sp[k + 1] - sp[k] for k in range(n - 1)]
-        if n == 1:
-            # one spike: the two edge distances
-            pool.append(sp[0] - ts if not first_on_edge else None)
-            pool.append(te - sp[0] if not last_on_edge else None)
-            continue
-        if first_on_edge:
-            pass  # first ISI is a plain ISI, already in inner
-        else:
-            pool.append(max(sp[0] - ts, inner[0]))
+        if sp[0] > ts:
+            pool.append(max(sp[0] - ts, inner[0]) if n > 1 else sp[0] - ts)
         pool.extend(inner)
-        if not last_on_edge:
-            pool.append(max(te - sp[-1], inner[-1]))
+        if sp[-1] < te:
+            pool.append(max(te - sp[-1], inner[-1]) if n > 1 else te - sp[-1])
     return pool
